@@ -478,6 +478,29 @@ def set_stress_case(rng):
     k = rng.randint(1, min(n + 1, 4))
     rest = rng.random() < 0.5
     pats = []
+    if rng.random() < 0.35:
+        # matching by construction, in the order that is worst for a greedy or partially-undone search: 4-6 distinct
+        # values; every pattern is given its own element, general patterns (matching many elements) are written
+        # first, the specific ones (matching exactly one) last; the elements are shuffled
+        n = rng.randint(4, 6)
+        vals = rng.sample(range(0, 9), n)
+        k = n if not rest else rng.randint(3, n)
+        owners = rng.sample(vals, k)
+        general, specific = [], []
+        for v in owners:
+            f = rng.random()
+            if f < 0.45:
+                specific.append(rng.choice(["== %d" % v, str(v), "%d..=%d" % (v, v)]))
+            elif f < 0.75:
+                general.append("> %d" % (min(vals) - 1) if rng.random() < 0.5 else "< %d" % (max(vals) + 1))
+            elif f < 0.9:
+                general.append("_")
+            else:
+                general.append(rng.choice([">= %d" % v, "<= %d" % v]))
+        rng.shuffle(general)
+        rng.shuffle(specific)
+        pats = general + specific
+        k = 0
     for _ in range(k):
         f = rng.random()
         if f < 0.15:
